@@ -26,10 +26,12 @@ partial def loop (h : IO.FS.Stream) (out : IO.FS.Stream) (ac : ApiCfg) (N M : Na
   out.putStrLn o
   loop h out ac N M s'
 
-def main (args : List String) : IO UInt32 := do
+partial def main (args : List String) : IO UInt32 := do
   match args with
+  | [fl, n, m, ak, mx, "optout"] => main [fl ++ "!", n, m, ak, mx]     -- built with GCH_NO_STRONG_EXCEPTION_GUARANTEES
   | [fl, n, m, ak, mx] =>
-    match flavourCfg fl, n.toNat?, m.toNat?, mx.toNat? with
+    match (if fl.endsWith "!" then (flavourCfg (fl.dropRight 1)).map (fun c => { c with strongOptOut := true }) else flavourCfg fl),
+          n.toNat?, m.toNat?, mx.toNat? with
     | some c, some N, some M, some maxSize =>
       match allocCfg { c with maxSize := maxSize } ak with
       | some (c', shift) =>
